@@ -89,6 +89,10 @@ HALPHA = [
 ]
 
 
+HGRIDS = ["uniform_lT", "uniform_lt0", "free", "geom_lt0_lT"]
+HALPHA2 = [["set_initial", "T", "const", 3.1], ["set_initial", "T", "const", 0.8], ["set_initial", "x", "expr", "lin"], ["set_initial", "u", "expr", "sin"], ["query", "sample"], ["solve"]]
+
+
 def cases(tier):
     k = 3 if tier == "thorough" else 2
     out = []; seen = set()
@@ -124,6 +128,12 @@ def cases(tier):
     for h in explore.histories(list(range(len(HALPHA))), depth):
         if h:
             out.append(dict(kind="history", ops=[HALPHA[i] for i in h]))
+    # histories on grids that carry their own time variables (localized / free): a guess of the horizon given after
+    # a transcription has to move them like one given before
+    for g in HGRIDS:
+        for h in explore.histories(list(range(len(HALPHA2))), depth):
+            if h:
+                out.append(dict(kind="history", grid=g, ops=[HALPHA2[i] for i in h]))
     return out
 
 
@@ -311,8 +321,11 @@ def run_case(case):
         for v in out["violations"]:
             v["tags"] = sorted(set(v["tags"] + ["target=%s" % t for t, f, _ in d["init"]] + ["form=%s" % f for t, f, _ in d["init"]]))
         return out
-    out = hist.run_history(HBASE, case["ops"])
-    tags = []
+    base = HBASE
+    if case.get("grid"):
+        base = copy.deepcopy(HBASE); base["grid"] = case["grid"]
+    out = hist.run_history(base, case["ops"])
+    tags = ["grid=%s" % case["grid"]] if case.get("grid") else []
     seen_tr = False
     for op in case["ops"]:
         if op[0] in ("query", "solve"): seen_tr = True
@@ -335,6 +348,6 @@ def run_case(case):
 
 def describe(tier):
     return dict(
-        rule="(c) SplineMethod: chain length x N x grid x {constant, affine-in-time} guess of the chain head x {fixed, free horizon with a guess of T before/after}: head and derived members start on the guess (spline coefficients at Greville points reproduce affine functions exactly); (a) deviation-bounded enumeration over target (state, control, global / per-interval / control+ variable, algebraic, T, t0) x guess form (scalar, vector, n x N, n x (N+1), 1-D numpy, DM row, time expression) x second call (same target again, guess of T before/after, control expression) x method/N/M/degree/grid/horizon/scale plus the full target x form x method x grid table: the public read-back of opti's starting point equals an independent guess evaluator (entries the statement leaves open are excluded and counted); rows/objective unchanged; (b) every history of length <= d over 11 ops (guesses incl. dependent ones, query, solve, edit, method): next solve = fresh OCP and = the evaluator",
+        rule="(c) SplineMethod: chain length x N x grid x {constant, affine-in-time} guess of the chain head x {fixed, free horizon with a guess of T before/after}: head and derived members start on the guess (spline coefficients at Greville points reproduce affine functions exactly); (a) deviation-bounded enumeration over target (state, control, global / per-interval / control+ variable, algebraic, T, t0) x guess form (scalar, vector, n x N, n x (N+1), 1-D numpy, DM row, time expression) x second call (same target again, guess of T before/after, control expression) x method/N/M/degree/grid/horizon/scale plus the full target x form x method x grid table: the public read-back of opti's starting point equals an independent guess evaluator (entries the statement leaves open are excluded and counted); rows/objective unchanged; (b) every history of length <= d over 11 ops (guesses incl. dependent ones, query, solve, edit, method), and over 6 ops (two guesses of T, time-expression guesses, query, solve) on 4 grids with their own time variables (localized t0 / T, free): next solve = fresh OCP and = the evaluator",
         bound="k<=%d deviations + table; history depth %d" % ((3, 4) if tier == "thorough" else (2, 3)),
         assumptions=["CasADi Opti.initial() is the solver's starting point", "array guesses do not pin helper states / final-node entries beyond their columns (excluded, counted)", "time-expression guesses on FreeGrid are not pinned (no declared partition)"])
